@@ -248,6 +248,54 @@ func (c *Ctx) layersEl(ls []xLayer, depth int) *etree.Element {
 	return el
 }
 
+// structuredKey: key number i of a cycle of random and structured keys of n bytes
+func (c *Ctx) structuredKey(n int, i int) []byte {
+	k := make([]byte, n)
+	g := func(group int, b []byte) { copy(k[group*8:], b) }
+	a, b2, d := c.randBytes(8), c.randBytes(8), c.randBytes(8)
+	kind := i % 10
+	switch kind {
+	case 1: // all zero
+	case 2:
+		for j := range k {
+			k[j] = 0xff
+		}
+	case 3: // one 8-byte group repeated
+		for j := 0; j*8 < n; j++ {
+			g(j, a)
+		}
+	case 4: // first two groups equal
+		g(0, a)
+		g(1, a)
+		for j := 2; j*8 < n; j++ {
+			g(j, d)
+		}
+	case 5: // last two groups equal
+		for j := 0; j*8 < n; j++ {
+			g(j, b2)
+		}
+		g(0, a)
+	case 6: // first and last equal
+		for j := 0; j*8 < n; j++ {
+			g(j, b2)
+		}
+		g(0, a)
+		g(n/8-1, a)
+	case 7:
+		for j := range k {
+			k[j] = byte(j)
+		}
+	case 8:
+		for j := range k {
+			k[j] = 0x01
+		}
+	default:
+		copy(k, c.randBytes(n))
+	}
+	c.count("c10-key-structure", []string{"random", "zero", "ones", "group-repeated", "first-two-equal", "last-two-equal", "first-last-equal", "counting", "des-weak", "random"}[kind])
+	return k
+}
+
 var sameModCerts = map[int][]byte{}
 
 // sameModulusCert: a certificate (issued by another key) for the public key (N of the SP key, another exponent) — not the SP's key
@@ -594,8 +642,10 @@ func (c *Ctx) genC10() {
 		if d.uri == uriGCM {
 			continue
 		}
-		for _, p := range c.plaintexts(d.bs) {
-			key := c.randBytes(d.bc.KeySize())
+		for pi, p := range c.plaintexts(d.bs) {
+			// "every key of the right size": random keys and keys with structure (constant, repeating 8-byte groups in every
+			// arrangement, counting bytes, the DES weak key pattern)
+			key := c.structuredKey(d.bc.KeySize(), pi)
 			xmlenc.RandReader = &detReader{c: c}
 			var el *etree.Element
 			res := safely(func() string {
@@ -607,7 +657,7 @@ func (c *Ctx) genC10() {
 				return "ok"
 			})
 			if el == nil {
-				c.emit("encfail", []string{encStr(d.name)}, res, "key=encrypt-fails:"+d.name+" "+d.name+".Encrypt fails for a key of KeySize(): "+res)
+				c.emitOneWay("encfail", []string{encStr(d.name)}, res, "key=encrypt-fails:"+d.name+" "+d.name+".Encrypt fails for a key of KeySize(): "+res)
 				continue
 			}
 			c.xdecrypt(xKey{kind: "b", bytes: key}, c.layersOf(el), p, "direct:"+d.name)
@@ -615,13 +665,13 @@ func (c *Ctx) genC10() {
 			ct, _ := cipherValueOf(el)
 			if refBlock(key, d.bs) != nil {
 				if rp, ok := refCBCDecrypt(key, d.bs, ct); !ok || !bytes.Equal(rp, p) {
-					c.emit("interop", []string{encStr(d.name)}, "mismatch", "key=interop-out:"+d.name+" the stdlib reference cannot decrypt the package's ciphertext")
+					c.emitOneWay("interop", []string{encStr(d.name)}, "mismatch", "key=interop-out:"+d.name+" the stdlib reference cannot decrypt the package's ciphertext")
 				}
 				// and the package decrypts the reference's ciphertext (arbitrary pad bytes)
 				rct := refCBCEncrypt(key, d.bs, c.randBytes(d.bs), p)
 				c.xdecrypt(xKey{kind: "b", bytes: key}, []xLayer{{alg: sp(d.uri), cipher: "v", ct: rct}}, p, "interop-in:"+d.name)
 			} else {
-				c.emit("interop", []string{encStr(d.name)}, "nokey", "key=interop-key:"+d.name+" the key size of "+d.name+" is not one the W3C algorithm "+d.uri+" admits")
+				c.emitOneWay("interop", []string{encStr(d.name)}, "nokey", "key=interop-key:"+d.name+" the key size of "+d.name+" is not one the W3C algorithm "+d.uri+" admits")
 			}
 		}
 	}
@@ -714,7 +764,7 @@ func (c *Ctx) genC10() {
 					})
 					tag := kt.name + "/" + d.name
 					if el == nil {
-						c.emit("encfail", []string{encStr(tag)}, res, "key=encrypt-fails:"+tag+" Encrypt fails: "+res)
+						c.emitOneWay("encfail", []string{encStr(tag)}, res, "key=encrypt-fails:"+tag+" Encrypt fails: "+res)
 						continue
 					}
 					c.xdecrypt(xKey{kind: "r", id: 1}, c.layersOf(el), p, "transport:"+tag)
